@@ -5,6 +5,7 @@ import (
 	"math/big"
 	"os"
 	"strings"
+	"time"
 
 	"github.com/consensys/gnark-crypto/field/goldilocks"
 	"github.com/consensys/gnark/frontend"
@@ -29,6 +30,9 @@ type fieldCase struct {
 	// at the non-linear nodes of a hook-free DAG instead of at hooked atoms
 	bigMod   bool
 	termCuts bool
+	// acceptReplay, if set, replays a disagreement as accept/reject decisions of the real code on
+	// concrete data; it returns a description of the reproduced disagreement or ""
+	acceptReplay func() string
 }
 
 type fctx struct {
@@ -171,12 +175,19 @@ func runFieldCase(r *Run, family string, c fieldCase, extraHooks map[string]hook
 			name, idx := c.name, i
 			got := new(big.Int).Mod(q.implEval(diff, outs[i]), P)
 			cc, dr := c, diff
-			r.Add(&Ob{Name: fmt.Sprintf("%s/out%d-differs", c.name, i), Family: family, Script: em.String(), Site: c.name, Bound: "inputs pinned to a sample point where implementation and reference disagree",
+			r.Add(&Ob{Name: fmt.Sprintf("%s/out%d-differs", c.name, i), Family: family, Script: em.String(), Site: c.name, Fallback: []string{"cvc5", "z3-new"}, TO: 25 * time.Second, Bound: "inputs pinned to a sample point where implementation and reference disagree",
 				OnFail: func(res smt.Result) *Violation {
 					// replay on the real code: gnark's test engine evaluates the unhooked function on
 					// these inputs with every output asserted equal to the reference's value
 					vals := func(name string, hi *big.Int) *big.Int {
 						return q.envVal(dr, &sym.Term{Name: name, Hi: hi})
+					}
+					if cc.acceptReplay != nil {
+						if m := cc.acceptReplay(); m != "" {
+							return &Violation{What: name + ": " + m, Replay: map[string]any{"kind": "functional", "family": family, "case": name}, Outcome: "gnark test engine on the real code, concrete data built with the native reference"}
+						}
+						r.Note("%s: accept/reject replay on the real code shows no disagreement", name)
+						return nil
 					}
 					ok, msg := replayFieldCase(cc, extraHooks, vals)
 					if ok {
@@ -229,8 +240,9 @@ type caseCircuit struct {
 }
 
 type caseEntry struct {
-	c    fieldCase
-	want []*big.Int
+	c     fieldCase
+	want  []*big.Int
+	nOuts int
 }
 
 var caseReg = map[int]*caseEntry{}
@@ -243,6 +255,7 @@ func (cc *caseCircuit) Define(api frontend.API) error {
 	ent := caseReg[cc.ID]
 	fc := &fctx{api: api, chip: gl.New(api), rb: ref.NewB(), replay: true, rin: cc.In, rhandle: map[string]*replayHandle{}}
 	outs, _ := ent.c.build(fc)
+	ent.nOuts = len(outs)
 	for i := range outs {
 		if i < len(ent.want) {
 			api.AssertIsEqual(outs[i], ent.want[i])
@@ -322,6 +335,11 @@ func replayFieldCase(c fieldCase, extraHooks map[string]hookFn, vals func(name s
 	if pm != "" {
 		// a replay that cannot run reproduces nothing
 		return true, "replay panicked: " + pm
+	}
+	if caseReg[id].nOuts == 0 {
+		// the case compares acceptance conditions, not returned values: random inputs are rejected
+		// by the real code regardless; such cases need (and get) their own accept/reject replay
+		return true, "no returned values to compare on the real engine"
 	}
 	if err != nil {
 		return false, err.Error()
@@ -568,4 +586,91 @@ func runC08(r *Run) {
 		"identities are proved over the integers on the lifted polynomials (constants by symmetric representatives), which implies congruence modulo p",
 		"7 is a quadratic non-residue modulo p (norm of a non-zero extension element is non-zero)")
 	r.Outside = append(r.Outside, "exponents, list lengths and interpolation sizes other than the listed ones (these are circuit-build-time parameters)")
+}
+
+// engineInputs runs the case symbolically once to learn its inputs (name, range) in creation
+// order and returns them together with the reference outputs of that dry run.
+func engineInputs(c fieldCase, hooks map[string]hookFn) (names []string, his []*big.Int, atoms map[string]*sym.Term, refs []*ref.N, err string) {
+	setHooks(hooks)
+	defer clearHooks()
+	dry := &fctx{rb: ref.NewB(), rhandle: map[string]*replayHandle{}}
+	err = catchPanic(func() {
+		api := newAPI(capPlain)
+		dry.api = api
+		dry.chip = newChip(api)
+		dry.e = cur
+		dry.w = newFieldRun(cur)
+		dry.w.noShapes = true
+		_, refs = c.build(dry)
+	})
+	forgetChips()
+	atoms = map[string]*sym.Term{}
+	if err != "" {
+		return
+	}
+	for _, a := range dry.e.Atoms {
+		if a.Kind == "input" || a.Kind == "bit" {
+			if _, isIn := dry.rb.VarOf(a); isIn {
+				names = append(names, a.Name)
+				his = append(his, a.Hi)
+				atoms[a.Name] = a
+			}
+		}
+	}
+	return
+}
+
+// runCaseOnEngine executes the case's real code on gnark's test engine with the given input values
+// (hooks stay installed: they only supply opaque inputs / switch off sub-checks) and reports
+// whether all constraints are satisfied.
+func runCaseOnEngine(c fieldCase, hooks map[string]hookFn, names []string, env map[string]*big.Int) (bool, string) {
+	old, had := os.LookupEnv("USE_BIT_DECOMPOSITION_RANGE_CHECK")
+	os.Setenv("USE_BIT_DECOMPOSITION_RANGE_CHECK", "true")
+	defer func() {
+		if had {
+			os.Setenv("USE_BIT_DECOMPOSITION_RANGE_CHECK", old)
+		} else {
+			os.Unsetenv("USE_BIT_DECOMPOSITION_RANGE_CHECK")
+		}
+	}()
+	setHooks(hooks)
+	defer clearHooks()
+	in := make([]frontend.Variable, len(names))
+	for i, n := range names {
+		in[i] = env[n]
+	}
+	id := len(caseReg) + 1
+	caseReg[id] = &caseEntry{c: c}
+	circuit := &caseCircuit{ID: id, In: make([]frontend.Variable, len(in))}
+	witness := &caseCircuit{ID: id, In: in}
+	var err error
+	pm := catchPanic(func() { quiet(func() { err = test.IsSolved(circuit, witness, R) }) })
+	forgetChips()
+	if pm != "" {
+		return false, "panic: " + short(pm, 160)
+	}
+	if err != nil {
+		return false, short(err.Error(), 160)
+	}
+	return true, ""
+}
+
+// native GF(p^2) helpers for replays
+func extMulN(a, b [2]*big.Int) [2]*big.Int {
+	c0 := new(big.Int).Mul(a[0], b[0])
+	t := new(big.Int).Mul(a[1], b[1])
+	c0.Add(c0, t.Mul(t, big.NewInt(7))).Mod(c0, P)
+	c1 := new(big.Int).Mul(a[0], b[1])
+	c1.Add(c1, new(big.Int).Mul(a[1], b[0])).Mod(c1, P)
+	return [2]*big.Int{c0, c1}
+}
+func extSubN(a, b [2]*big.Int) [2]*big.Int {
+	return [2]*big.Int{new(big.Int).Mod(new(big.Int).Sub(a[0], b[0]), P), new(big.Int).Mod(new(big.Int).Sub(a[1], b[1]), P)}
+}
+func extInvN(a [2]*big.Int) [2]*big.Int {
+	n := new(big.Int).Mul(a[0], a[0])
+	t := new(big.Int).Mul(a[1], a[1])
+	n.Sub(n, t.Mul(t, big.NewInt(7))).Mod(n, P)
+	ni := new(big.Int).ModInverse(n, P)
+	return [2]*big.Int{new(big.Int).Mod(new(big.Int).Mul(a[0], ni), P), new(big.Int).Mod(new(big.Int).Neg(new(big.Int).Mul(a[1], ni)), P)}
 }
